@@ -3,6 +3,8 @@ CONSTANTS
   MaxDepth = 2
   SampleSize = 1500
   NegUnionFlipsEach = FALSE
+  FalsyObjs = {}
+  OperandTruthFilter = FALSE
 SPECIFICATION Spec
 INVARIANT EngineSound
 INVARIANT RefSane
